@@ -45,6 +45,8 @@ structure Ops (DT Val : Type) where
   checkDT : DT → Bool                      -- `dt.checkProperties()` passes
   dtDefault : DT → Val                     -- `dt.default`
   ownProp : Name → Option (Val → Option Val)  -- settable properties of `Parameter` itself (not value/default)
+  cmdProp : Name → Option (Val → Option Val)  -- settable properties of `Command`
+  cmdRaises : Name → Val → Bool               -- the refusal of a `Command` property value is a `ValueError` (not a `BadValueError`)
   limitDT : LimitKind → DT → DT            -- `Limit.set_datatype`
   limitDefault : LimitKind → DT → Val
 
@@ -81,7 +83,7 @@ structure ParamDesc (DT Val : Type) where
 structure ClassDesc (DT Val : Type) where
   modProps : List (ModPropDesc Val)      -- `propertyDict` order
   params : List (ParamDesc DT Val)       -- `accessibles` order (non-optional parameters)
-  otherNames : List Name                 -- commands: known names whose cfg is not modelled
+  otherNames : List Name                 -- commands
 
 /-- a module property in the cfg: bare value, or a dict with or without the key `value` -/
 inductive PropCfg (Val : Type) where
@@ -352,6 +354,49 @@ def paramStep {DT Val : Type} (ops : Ops DT Val) (cfg : Cfg Val) (acc : ParamsOu
 def applyParams {DT Val : Type} (ops : Ops DT Val) (ps : List (ParamDesc DT Val)) (cfg : Cfg Val) : ParamsOut DT Val :=
   ps.foldl (paramStep ops cfg) ⟨[], [], [], false⟩
 
+/-! ## commands in the cfg (modulebase.py:476-486)
+
+`Command.setProperty` is `HasProperties.setProperty`: an unknown property is a `KeyError`, an ill-typed value a
+`BadValueError` — both are COLLECTED by `_add_accessible` (unlike `Parameter.setProperty`, which turns them into a
+`ProgrammingError`); the loop over the cfg of that command ends there. -/
+
+inductive CmdRes where
+  | errs (es : List CfgErr)
+  | raised                   -- an exception nobody catches leaves the constructor
+
+/-- `Command.setProperty` turns a `ValueError` (a string or number which is not a member of the `visibility` enum) into
+a `ProgrammingError`, which `_add_accessible` does not catch; a `BadValueError` (wrong type) is collected -/
+def cmdEntries {DT Val : Type} (ops : Ops DT Val) (name : Name) : List (Name × Val) → CmdRes
+  | [] => .errs []
+  | (k, v) :: rest =>
+    match ops.cmdProp k with
+    | none => .errs [.unknownProp name k]
+    | some f =>
+      match f v with
+      | none => if ops.cmdRaises k v then .raised else .errs [.badValue name k]
+      | some _ => cmdEntries ops name rest
+
+def addCommand {DT Val : Type} (ops : Ops DT Val) (name : Name) : Option (Entry Val) → CmdRes
+  | none => .errs []
+  | some (.prop _) => .raised            -- `cfg.items()` on something that is not a dict: AttributeError
+  | some (.acc items) => cmdEntries ops name items
+
+structure CmdsOut where
+  errs : List CfgErr
+  raised : Bool
+
+def cmdStep {DT Val : Type} (ops : Ops DT Val) (cfg : Cfg Val) (acc : CmdsOut) (n : Name) : CmdsOut :=
+  if acc.raised then acc else
+  match addCommand ops n (lookup n cfg) with
+  | .raised => { acc with raised := true }
+  | .errs es => { acc with errs := acc.errs ++ es }
+
+/-- the commands of the class (`otherNames`).  In the constructor they are handled by the same loop as the parameters,
+in `accessibles` order; the model keeps them apart (what is collected for commands is listed after what is collected
+for parameters — the harness compares the two groups separately) -/
+def applyCommands {DT Val : Type} (ops : Ops DT Val) (names : List Name) (cfg : Cfg Val) : CmdsOut :=
+  names.foldl (cmdStep ops cfg) ⟨[], false⟩
+
 /-! ## names left over (modulebase.py:399-403) and the final checks (416-428) -/
 
 def knownNames {DT Val : Type} (c : ClassDesc DT Val) : List Name :=
@@ -380,7 +425,8 @@ def unknownErr (left : List Name) : List CfgErr :=
 
 /-- everything collected before the final checks -/
 def phase1 {DT Val : Type} (ops : Ops DT Val) (c : ClassDesc DT Val) (cfg : Cfg Val) : List CfgErr :=
-  (applyModProps c.modProps cfg).errs ++ (applyParams ops c.params cfg).errs ++ unknownErr (leftover c cfg)
+  (applyModProps c.modProps cfg).errs ++ (applyParams ops c.params cfg).errs ++
+    (applyCommands ops c.otherNames cfg).errs ++ unknownErr (leftover c cfg)
 
 /-- the final checks (only run when nothing was collected) -/
 def phase2 {DT Val : Type} (ops : Ops DT Val) (c : ClassDesc DT Val) (cfg : Cfg Val) : List CfgErr :=
@@ -389,7 +435,8 @@ def phase2 {DT Val : Type} (ops : Ops DT Val) (c : ClassDesc DT Val) (cfg : Cfg 
 
 def applyConfig {DT Val : Type} (ops : Ops DT Val) (c : ClassDesc DT Val) (cfg : Cfg Val) :
     Except (List CfgErr) (Instance DT Val) :=
-  if (applyModProps c.modProps cfg).raised || (applyParams ops c.params cfg).raised then .error [.raised] else
+  if (applyModProps c.modProps cfg).raised || (applyParams ops c.params cfg).raised ||
+      (applyCommands ops c.otherNames cfg).raised then .error [.raised] else
   match phase1 ops c cfg with
   | e :: es => .error (e :: es)
   | [] =>
